@@ -166,11 +166,19 @@ def check_section_data(ctx, w):
 
     def canon(s):
         return s.replace('_decompressed_size', 'data_size') if s else s
+    import copy
     allp = paths.func_paths(f.node)
     seen = {'nobits': 0, 'zlib': 0, 'plain': 0, 'unknown-compression': 0}
+    INFLATED = 'decompress(decompressobj(zlib), read(stream, sh_size - sizeof(Elf_Chdr)), data_size)'
+
+    def subst_cond(p, t):
+        # the test as a condition over what the path computed (a local `result` or the expression itself: the same value)
+        e = expr._StoreSubst(expr.path_store(p, upto=t)).visit(copy.deepcopy(t))
+        return canon(expr.cond_str(ast.fix_missing_locations(e), env))
     for p in allp:
         conds = [expr.CP(expr.cond_str(t, env), pol) for t, pol in p.conds()]
         cd = expr.Facts(conds)
+        rv = canon(expr.path_value(p, p.end[1], env)) if p.end[0] == 'return' and p.end[1] is not None else None
         ops = [tuple(canon(x) if isinstance(x, str) else x for x in o.t()) for o in streams.path_ops(p, env)]
         nob = cd.get(expr.spec_cond("sh_type == 'SHT_NOBITS'"))
         comp = cd.get('T(compressed)')
@@ -187,9 +195,7 @@ def check_section_data(ctx, w):
         if comp is None:
             raise AnalysisError('E-i', f.construct, 'compressed test not found on a path: %r' % (conds,))
         if comp and zl:
-            szc = cd.get(canon(expr.spec_cond('len(result) != _decompressed_size')))
-            if szc is None:
-                szc = expr.Facts((canon(k), v) for k, v in conds).get(expr.spec_cond('len(result) != data_size'))
+            szc = expr.Facts(expr.CP(subst_cond(p, t), pol) for t, pol in p.conds()).get(expr.spec_cond('len(%s) != data_size' % INFLATED))
             if p.end[0] == 'return':
                 seen['zlib'] += 1
                 want = [('seek', 'stream', expr.spec_nf('sh_offset + sizeof(Elf_Chdr)'), 'SEEK_SET'),
@@ -199,7 +205,7 @@ def check_section_data(ctx, w):
                        got=ops, expected=want, sample='Section.data zlib: seek sh_offset+sizeof(Chdr); read sh_size-sizeof(Chdr)')
                 ctx.ob('R-DOM', f.construct, 'size check before compressed return', szc is False,
                        msg='a compressed return path does not pass the decompressed-size check', got=conds)
-                ctx.ob('E-i', f.construct, 'returns inflated result', expr.nfs(p.end[1], env) == 'result', got=expr.nfs(p.end[1], env))
+                ctx.ob('E-i', f.construct, 'returns inflated result', rv == expr.spec_nf(INFLATED), got=rv)
             elif p.end[0] == 'raise':
                 ok = szc is True and p.end[1] is not None and 'ELFCompressionError' in U(p.end[1])
                 ctx.ob('R-DOM', f.construct, 'size mismatch raises ELFCompressionError', ok, got=conds)
@@ -210,7 +216,7 @@ def check_section_data(ctx, w):
         elif comp is False:
             seen['plain'] += 1
             want = [('seek', 'stream', 'sh_offset', 'SEEK_SET'), ('read', 'stream', 'data_size')]
-            ok = p.end[0] == 'return' and ops == want and expr.nfs(p.end[1], env) == 'result'
+            ok = p.end[0] == 'return' and ops == want and rv == expr.spec_nf('read(stream, data_size)')
             ctx.ob('E-i', f.construct, 'plain extent', ok, msg='plain data is not read from sh_offset for the logical size',
                    got=ops, expected=want, sample='Section.data plain: seek sh_offset; read data_size')
     for k, v in sorted(seen.items()):
